@@ -773,3 +773,10 @@ import contracts.c08  # noqa: E402,F401
 from pyvc.unit import reuse as _reuse  # noqa: E402
 
 _reuse("C08.manager_advance_and_append", "C07.every_epoch_gets_its_own_history_chain", "C07")
+
+
+# every engine drives ITS kernels through the whole configured schedule - also the second engine built from one builder (the schedule state of an engine is
+# its own; same harness as C10.builder_reused_after_schedule_change: each schedule is built twice and both engines' managers are run to their end)
+from contracts.c10 import rebuild_unit as _rebuild_unit  # noqa: E402
+
+_rebuild_unit("C07.engines_built_from_one_builder_have_their_own_schedule", "C07")
